@@ -91,6 +91,7 @@ type Config struct {
 
 // Engine is one worker: term store, solver, and the state of the current path.
 type Engine struct {
+	jsonPath []string // field path of the json.Unmarshal in progress (messages only)
 	cfg   *Config
 	T     *sym.Store
 	S     *sym.Solver
@@ -162,6 +163,7 @@ func NewEngine(cfg *Config) (*Engine, error) {
 func (e *Engine) Close() { e.S.Close() }
 
 func (e *Engine) resetPath(prefix []int64) {
+	e.jsonPath = nil
 	e.pc = e.pc[:0]
 	e.prefix = prefix
 	e.decisions = e.decisions[:0]
